@@ -12,11 +12,15 @@ Conventions
 * the reader's three outcomes `Ok(Some _)`, `Ok(None)` (not enough bytes yet) and `Err _` are the
   constructors `ok`, `inc`, `err` of `Res`; `Buf::get_*`/`copy_to_bytes` on a short buffer panic in
   Rust: that is `err .panic` (never reached, every such call is guarded);
+* every type, item, result, source and reason code is a constant of `Gen/PduCodes.lean`, regenerated
+  from the source on each check (`translators/pdu_codes.py`): `Gen.w…` where the writer emits it,
+  `Gen.r…` where the reader tests it. Only `validPS38` below spells the PS3.8 numbers out;
 * `write_chunk_u16/u32` are modelled as *repaired* (DESIGN §7 #9): a chunk whose content does not
   fit the length field is an error (`chunk16`/`chunk32`); the unchecked original (`as u16`) is kept
   as `chunk16Wrapping` for the witness theorem of the defect.
 -/
 import DicomModel.Model.Bytes
+import DicomModel.Gen.PduCodes
 namespace Dicom.Pdu
 
 abbrev Str := List Nat
@@ -138,85 +142,111 @@ def maximumPduSize : Nat := 4294967294 - 6
 /-! ## Code tables (the `from`/`to_u8` functions and the `match`es of the writer) -/
 
 def PcReason.code : PcReason → Nat
-  | .acceptance => 0 | .userRejection => 1 | .noReason => 2
-  | .abstractSyntaxNotSupported => 3 | .transferSyntaxesNotSupported => 4
+  | .acceptance => Gen.wPcReason_Acceptance
+  | .userRejection => Gen.wPcReason_UserRejection
+  | .noReason => Gen.wPcReason_NoReason
+  | .abstractSyntaxNotSupported => Gen.wPcReason_AbstractSyntaxNotSupported
+  | .transferSyntaxesNotSupported => Gen.wPcReason_TransferSyntaxesNotSupported
 
-def PcReason.ofCode : Nat → Option PcReason
-  | 0 => some .acceptance | 1 => some .userRejection | 2 => some .noReason
-  | 3 => some .abstractSyntaxNotSupported | 4 => some .transferSyntaxesNotSupported
-  | _ => none
+/-- `PresentationContextResultReason::from` -/
+def PcReason.ofCode (c : Nat) : Option PcReason :=
+  if c = Gen.rPcReason_Acceptance then some .acceptance
+  else if c = Gen.rPcReason_UserRejection then some .userRejection
+  else if c = Gen.rPcReason_NoReason then some .noReason
+  else if c = Gen.rPcReason_AbstractSyntaxNotSupported then some .abstractSyntaxNotSupported
+  else if c = Gen.rPcReason_TransferSyntaxesNotSupported then some .transferSyntaxesNotSupported
+  else none
 
 def RjResult.code : RjResult → Nat
-  | .permanent => 1 | .transient => 2
+  | .permanent => Gen.wRjResult_Permanent
+  | .transient => Gen.wRjResult_Transient
 
-def RjResult.ofCode : Nat → Option RjResult
-  | 1 => some .permanent | 2 => some .transient | _ => none
+/-- `AssociationRJResult::from` -/
+def RjResult.ofCode (c : Nat) : Option RjResult :=
+  if c = Gen.rRjResult_Permanent then some .permanent
+  else if c = Gen.rRjResult_Transient then some .transient
+  else none
 
 /-- source and reason bytes written for an A-ASSOCIATE-RJ -/
 def RjSource.codes : RjSource → Nat × Nat
-  | .serviceUser .noReasonGiven => (1, 1)
-  | .serviceUser .acnNotSupported => (1, 2)
-  | .serviceUser .callingNotRecognized => (1, 3)
-  | .serviceUser .calledNotRecognized => (1, 7)
-  | .serviceUser (.reserved x) => (1, x)
-  | .asce .noReasonGiven => (2, 1)
-  | .asce .protocolVersionNotSupported => (2, 2)
-  | .presentation .temporaryCongestion => (3, 1)
-  | .presentation .localLimitExceeded => (3, 2)
-  | .presentation (.reserved x) => (3, x)
+  | .serviceUser .noReasonGiven => (Gen.wRj_ServiceUser, Gen.wRj_ServiceUser_NoReasonGiven)
+  | .serviceUser .acnNotSupported => (Gen.wRj_ServiceUser, Gen.wRj_ServiceUser_ApplicationContextNameNotSupported)
+  | .serviceUser .callingNotRecognized => (Gen.wRj_ServiceUser, Gen.wRj_ServiceUser_CallingAETitleNotRecognized)
+  | .serviceUser .calledNotRecognized => (Gen.wRj_ServiceUser, Gen.wRj_ServiceUser_CalledAETitleNotRecognized)
+  | .serviceUser (.reserved x) => (Gen.wRj_ServiceUser, x)
+  | .asce .noReasonGiven => (Gen.wRj_ServiceProviderASCE, Gen.wRj_ServiceProviderASCE_NoReasonGiven)
+  | .asce .protocolVersionNotSupported =>
+    (Gen.wRj_ServiceProviderASCE, Gen.wRj_ServiceProviderASCE_ProtocolVersionNotSupported)
+  | .presentation .temporaryCongestion =>
+    (Gen.wRj_ServiceProviderPresentation, Gen.wRj_ServiceProviderPresentation_TemporaryCongestion)
+  | .presentation .localLimitExceeded =>
+    (Gen.wRj_ServiceProviderPresentation, Gen.wRj_ServiceProviderPresentation_LocalLimitExceeded)
+  | .presentation (.reserved x) => (Gen.wRj_ServiceProviderPresentation, x)
 
-/-- `AssociationRJSource::from` -/
+/-- `AssociationRJSource::from` (the arms of the Rust `match` are pairwise disjoint — checked by the
+translator — so their order does not matter) -/
 def RjSource.ofCodes (s r : Nat) : Option RjSource :=
-  if s = 1 then
-    if r = 1 then some (.serviceUser .noReasonGiven)
-    else if r = 2 then some (.serviceUser .acnNotSupported)
-    else if r = 3 then some (.serviceUser .callingNotRecognized)
-    else if r = 4 ∨ r = 5 ∨ r = 6 then some (.serviceUser (.reserved r))
-    else if r = 7 then some (.serviceUser .calledNotRecognized)
-    else if r = 8 ∨ r = 9 ∨ r = 10 then some (.serviceUser (.reserved r))
+  if s = Gen.rRj_ServiceUser then
+    if r = Gen.rRj_ServiceUser_NoReasonGiven then some (.serviceUser .noReasonGiven)
+    else if r = Gen.rRj_ServiceUser_ApplicationContextNameNotSupported then some (.serviceUser .acnNotSupported)
+    else if r = Gen.rRj_ServiceUser_CallingAETitleNotRecognized then some (.serviceUser .callingNotRecognized)
+    else if r = Gen.rRj_ServiceUser_CalledAETitleNotRecognized then some (.serviceUser .calledNotRecognized)
+    else if Gen.rRj_ServiceUser_Reserved.contains r then some (.serviceUser (.reserved r))
     else none
-  else if s = 2 then
-    if r = 1 then some (.asce .noReasonGiven)
-    else if r = 2 then some (.asce .protocolVersionNotSupported)
+  else if s = Gen.rRj_ServiceProviderASCE then
+    if r = Gen.rRj_ServiceProviderASCE_NoReasonGiven then some (.asce .noReasonGiven)
+    else if r = Gen.rRj_ServiceProviderASCE_ProtocolVersionNotSupported then some (.asce .protocolVersionNotSupported)
     else none
-  else if s = 3 then
-    if r = 0 then some (.presentation (.reserved 0))
-    else if r = 1 then some (.presentation .temporaryCongestion)
-    else if r = 2 then some (.presentation .localLimitExceeded)
-    else if r = 3 ∨ r = 4 ∨ r = 5 ∨ r = 6 ∨ r = 7 then some (.presentation (.reserved r))
+  else if s = Gen.rRj_ServiceProviderPresentation then
+    if r = Gen.rRj_ServiceProviderPresentation_TemporaryCongestion then some (.presentation .temporaryCongestion)
+    else if r = Gen.rRj_ServiceProviderPresentation_LocalLimitExceeded then some (.presentation .localLimitExceeded)
+    else if Gen.rRj_ServiceProviderPresentation_Reserved.contains r then some (.presentation (.reserved r))
     else none
   else none
 
-def AbortReason.code : AbortReason → Nat
-  | .reasonNotSpecified => 0 | .unrecognizedPdu => 1 | .unexpectedPdu => 2 | .reserved => 3
-  | .unrecognizedPduParameter => 4 | .unexpectedPduParameter => 5 | .invalidPduParameter => 6
-
+/-- the two bytes `source_word` of an A-ABORT -/
 def AbortSource.codes : AbortSource → Nat × Nat
-  | .serviceUser => (0, 0)
-  | .reserved => (1, 0)
-  | .serviceProvider r => (2, r.code)
+  | .serviceUser => Gen.wAbort_ServiceUser
+  | .reserved => Gen.wAbort_Reserved
+  | .serviceProvider .reasonNotSpecified => Gen.wAbort_ServiceProvider_ReasonNotSpecified
+  | .serviceProvider .unrecognizedPdu => Gen.wAbort_ServiceProvider_UnrecognizedPdu
+  | .serviceProvider .unexpectedPdu => Gen.wAbort_ServiceProvider_UnexpectedPdu
+  | .serviceProvider .reserved => Gen.wAbort_ServiceProvider_Reserved
+  | .serviceProvider .unrecognizedPduParameter => Gen.wAbort_ServiceProvider_UnrecognizedPduParameter
+  | .serviceProvider .unexpectedPduParameter => Gen.wAbort_ServiceProvider_UnexpectedPduParameter
+  | .serviceProvider .invalidPduParameter => Gen.wAbort_ServiceProvider_InvalidPduParameter
 
 /-- `AbortRQSource::from` -/
 def AbortSource.ofCodes (s r : Nat) : Option AbortSource :=
-  if s = 0 then some .serviceUser
-  else if s = 1 then some .reserved
-  else if s = 2 then
-    if r = 0 then some (.serviceProvider .reasonNotSpecified)
-    else if r = 1 then some (.serviceProvider .unrecognizedPdu)
-    else if r = 2 then some (.serviceProvider .unexpectedPdu)
-    else if r = 3 then some (.serviceProvider .reserved)
-    else if r = 4 then some (.serviceProvider .unrecognizedPduParameter)
-    else if r = 5 then some (.serviceProvider .unexpectedPduParameter)
-    else if r = 6 then some (.serviceProvider .invalidPduParameter)
+  if s = Gen.rAbort_ServiceUser then some .serviceUser
+  else if s = Gen.rAbort_Reserved then some .reserved
+  else if s = Gen.rAbort_ServiceProvider then
+    if r = Gen.rAbort_ServiceProvider_ReasonNotSpecified then some (.serviceProvider .reasonNotSpecified)
+    else if r = Gen.rAbort_ServiceProvider_UnrecognizedPdu then some (.serviceProvider .unrecognizedPdu)
+    else if r = Gen.rAbort_ServiceProvider_UnexpectedPdu then some (.serviceProvider .unexpectedPdu)
+    else if r = Gen.rAbort_ServiceProvider_Reserved then some (.serviceProvider .reserved)
+    else if r = Gen.rAbort_ServiceProvider_UnrecognizedPduParameter then some (.serviceProvider .unrecognizedPduParameter)
+    else if r = Gen.rAbort_ServiceProvider_UnexpectedPduParameter then some (.serviceProvider .unexpectedPduParameter)
+    else if r = Gen.rAbort_ServiceProvider_InvalidPduParameter then some (.serviceProvider .invalidPduParameter)
     else none
   else none
 
+/-- `UserIdentityType::to_u8` -/
 def IdType.code : IdType → Nat
-  | .username => 1 | .usernamePassword => 2 | .kerberos => 3 | .saml => 4 | .jwt => 5
+  | .username => Gen.wIdType_Username
+  | .usernamePassword => Gen.wIdType_UsernamePassword
+  | .kerberos => Gen.wIdType_KerberosServiceTicket
+  | .saml => Gen.wIdType_SamlAssertion
+  | .jwt => Gen.wIdType_Jwt
 
-def IdType.ofCode : Nat → Option IdType
-  | 1 => some .username | 2 => some .usernamePassword | 3 => some .kerberos
-  | 4 => some .saml | 5 => some .jwt | _ => none
+/-- `UserIdentityType::from` -/
+def IdType.ofCode (c : Nat) : Option IdType :=
+  if c = Gen.rIdType_Username then some .username
+  else if c = Gen.rIdType_UsernamePassword then some .usernamePassword
+  else if c = Gen.rIdType_KerberosServiceTicket then some .kerberos
+  else if c = Gen.rIdType_SamlAssertion then some .saml
+  else if c = Gen.rIdType_Jwt then some .jwt
+  else none
 
 def b2n (b : Bool) : Nat := if b then 1 else 0
 
@@ -275,30 +305,33 @@ def writeAe (s : Str) : W :=
   | .ok b => .ok ((b ++ List.replicate 16 32).take 16)
   | .error e => .error e
 
-def writeAcn (s : Str) : W := item16 0x10 (encodeText s)
+def writeAcn (s : Str) : W := item16 Gen.wItem_ApplicationContext (encodeText s)
 
 def writeTsList : List Str → W
   | [] => .ok []
-  | ts :: r => wcat (item16 0x40 (encodeText ts)) (writeTsList r)
+  | ts :: r => wcat (item16 Gen.wSubProposed_TransferSyntax (encodeText ts)) (writeTsList r)
 
 def writePcProposed (pc : PcProposed) : W :=
-  item16 0x20
+  item16 Gen.wItem_PresentationContextProposed
     (wcat (.ok [pc.id, 0, 0, 0])
-      (wcat (item16 0x30 (encodeText pc.abstractSyntax)) (writeTsList pc.transferSyntaxes)))
+      (wcat (item16 Gen.wSubProposed_AbstractSyntax (encodeText pc.abstractSyntax))
+        (writeTsList pc.transferSyntaxes)))
 
 def writePcResult (pc : PcResult) : W :=
-  item16 0x21
-    (wcat (.ok [pc.id, 0, pc.reason.code, 0]) (item16 0x40 (encodeText pc.transferSyntax)))
+  item16 Gen.wItem_PresentationContextResult
+    (wcat (.ok [pc.id, 0, pc.reason.code, 0])
+      (item16 Gen.wSubResult_TransferSyntax (encodeText pc.transferSyntax)))
 
 def writeUserVar : UserVar → W
-  | .maxLength n => item16 0x51 (.ok (be32 n))
-  | .implVersionName s => item16 0x55 (encodeText s)
-  | .implClassUid s => item16 0x52 (encodeText s)
+  | .maxLength n => item16 Gen.wUser_MaxLength (.ok (be32 n))
+  | .implVersionName s => item16 Gen.wUser_ImplementationVersionName (encodeText s)
+  | .implClassUid s => item16 Gen.wUser_ImplementationClassUID (encodeText s)
   | .roleSelection uid scu scp =>
-    item16 0x54 (wcat (chunk16 (encodeText uid)) (.ok [b2n scu, b2n scp]))
-  | .sopClassExt uid d => item16 0x56 (wcat (chunk16 (encodeText uid)) (.ok d))
+    item16 Gen.wUser_ScuScpRoleSelectionSubItem (wcat (chunk16 (encodeText uid)) (.ok [b2n scu, b2n scp]))
+  | .sopClassExt uid d =>
+    item16 Gen.wUser_SopClassExtendedNegotiationSubItem (wcat (chunk16 (encodeText uid)) (.ok d))
   | .userIdentity u =>
-    item16 0x58
+    item16 Gen.wUser_UserIdentityItem
       (wcat (.ok [u.type.code, b2n u.positiveResponseRequested])
         (wcat (chunk16 (.ok u.primary)) (chunk16 (.ok u.secondary))))
   | .unknown t d => item16 t (.ok d)
@@ -309,7 +342,7 @@ def writeUserVarList : List UserVar → W
 
 /-- `write_pdu_variable_user_variables`: nothing at all for an empty list -/
 def writeUserVars (vs : List UserVar) : W :=
-  if vs.isEmpty then .ok [] else item16 0x50 (writeUserVarList vs)
+  if vs.isEmpty then .ok [] else item16 Gen.wItem_UserVariables (writeUserVarList vs)
 
 def writePcProposedList : List PcProposed → W
   | [] => .ok []
@@ -354,13 +387,13 @@ def writePduBody : Pdu → W
   | .unknown _ d => .ok d
 
 def pduType : Pdu → Nat
-  | .associationRQ _ => 0x01
-  | .associationAC _ => 0x02
-  | .associationRJ _ _ => 0x03
-  | .pData _ => 0x04
-  | .releaseRQ => 0x05
-  | .releaseRP => 0x06
-  | .abortRQ _ => 0x07
+  | .associationRQ _ => Gen.wPdu_AssociationRQ
+  | .associationAC _ => Gen.wPdu_AssociationAC
+  | .associationRJ _ _ => Gen.wPdu_AssociationRJ
+  | .pData _ => Gen.wPdu_PData
+  | .releaseRQ => Gen.wPdu_ReleaseRQ
+  | .releaseRP => Gen.wPdu_ReleaseRP
+  | .abortRQ _ => Gen.wPdu_AbortRQ
   | .unknown t _ => t
 
 /-- `write_pdu` -/
@@ -440,10 +473,10 @@ def readPcProposedSubs : Nat → Bytes → Option Str → List Str → Res (Opti
   | 0, _ :: _, _, _ => .err .fuel
   | f + 1, b :: bs', a, ts => do
     let (t, len, bs) ← subHeader (b :: bs')
-    if t = 0x30 then do
+    if t = Gen.rSubProposed_AbstractSyntax then do
       let (x, bs) ← takeI len bs
       readPcProposedSubs f bs (some (trimWs x)) ts
-    else if t = 0x40 then do
+    else if t = Gen.rSubProposed_TransferSyntax then do
       let (x, bs) ← takeI len bs
       readPcProposedSubs f bs a (ts ++ [trimWs x])
     else .err .unknownPcSubItem
@@ -454,7 +487,7 @@ def readPcResultSubs : Nat → Bytes → Option Str → Res (Option Str)
   | 0, _ :: _, _ => .err .fuel
   | f + 1, b :: bs', ts => do
     let (t, len, bs) ← subHeader (b :: bs')
-    if t = 0x40 then
+    if t = Gen.rSubResult_TransferSyntax then
       match ts with
       | some _ => .err .multipleTs
       | none => do
@@ -464,22 +497,22 @@ def readPcResultSubs : Nat → Bytes → Option Str → Res (Option Str)
 
 /-- one user-information sub-item; `none` = recognised but dropped (unknown identity type) -/
 def readUserVarBody (t len : Nat) (bs : Bytes) : Res (Option UserVar × Bytes) :=
-  if t = 0x51 then do
+  if t = Gen.rUser_MaxLength then do
     let (n, bs) ← u32I bs
     pure (some (.maxLength n), bs)
-  else if t = 0x52 then do
+  else if t = Gen.rUser_ImplementationClassUID then do
     let (x, bs) ← takeI len bs
     pure (some (.implClassUid (trimWs x)), bs)
-  else if t = 0x54 then do
+  else if t = Gen.rUser_ScuScpRoleSelectionSubItem then do
     let (ul, bs) ← u16I bs
     let (uid, bs) ← takeI ul bs
     let (scu, bs) ← u8I bs
     let (scp, bs) ← u8I bs
     pure (some (.roleSelection (trimWs uid) (scu != 0) (scp != 0)), bs)
-  else if t = 0x55 then do
+  else if t = Gen.rUser_ImplementationVersionName then do
     let (x, bs) ← takeI len bs
     pure (some (.implVersionName (trimWs x)), bs)
-  else if t = 0x56 then do
+  else if t = Gen.rUser_SopClassExtendedNegotiationSubItem then do
     let (ul, bs) ← u16I bs
     if bs.length < ul then .inc
     else if len < (2 + ul) % 65536 then .err .shortSopClassExt
@@ -488,7 +521,7 @@ def readUserVarBody (t len : Nat) (bs : Bytes) : Res (Option UserVar × Bytes) :
       -- `(item_length - 2 - sop_class_uid_length) as usize` in wrapping `u16` arithmetic
       let (d, bs) ← takeI ((len + 131070 - ul) % 65536) bs
       pure (some (.sopClassExt (trimWs uid) d), bs)
-  else if t = 0x58 then do
+  else if t = Gen.rUser_UserIdentityItem then do
     let (ty, bs) ← u8I bs
     let (prr, bs) ← u8I bs
     let (pl, bs) ← u16I bs
@@ -518,8 +551,8 @@ def readUserVarLoop : Nat → Bytes → List UserVar → Res (List UserVar)
 
 /-- `read_pdu_variable` after the item header: `body` is the item content, `rest` what follows -/
 def readVarBody (t : Nat) (body rest : Bytes) : Res (VarItem × Bytes) :=
-  if t = 0x10 then pure (.acn body, rest)
-  else if t = 0x20 then do
+  if t = Gen.rItem_ApplicationContext then pure (.acn body, rest)
+  else if t = Gen.rItem_PresentationContextProposed then do
     let (id, b) ← u8I body
     let (_, b) ← u8I b
     let (_, b) ← u8I b
@@ -528,7 +561,7 @@ def readVarBody (t : Nat) (body rest : Bytes) : Res (VarItem × Bytes) :=
     match a with
     | some a => pure (.pcProposed ⟨id, a, tss⟩, rest)
     | none => .err .missingAs
-  else if t = 0x21 then do
+  else if t = Gen.rItem_PresentationContextResult then do
     let (id, b) ← u8I body
     let (_, b) ← u8I b
     let (rc, b) ← u8I b
@@ -540,7 +573,7 @@ def readVarBody (t : Nat) (body rest : Bytes) : Res (VarItem × Bytes) :=
       match ts with
       | some ts => pure (.pcResult ⟨id, reason, ts⟩, rest)
       | none => .err .missingTs
-  else if t = 0x50 then do
+  else if t = Gen.rItem_UserVariables then do
     let vs ← readUserVarLoop body.length body []
     pure (.userVars vs, rest)
   else pure (.unknown t, rest)
@@ -611,19 +644,19 @@ def readPdvs : Nat → Bytes → List Pdv → Res (List Pdv)
 
 /-- body of a PDU of type `t` (exactly `pdu_length` bytes) -/
 def readBody (t : Nat) (body : Bytes) : Res Pdu :=
-  if t = 0x01 then do
+  if t = Gen.rPdu_AssociationRQ then do
     let (pv, called, calling, b) ← readAssocFixed body
     let (acn, pcs, uvs) ← readRqVars b.length b none [] []
     match acn with
     | some acn => pure (.associationRQ ⟨pv, calling, called, acn, pcs, uvs⟩)
     | none => .err .missingAcn
-  else if t = 0x02 then do
+  else if t = Gen.rPdu_AssociationAC then do
     let (pv, called, calling, b) ← readAssocFixed body
     let (acn, pcs, uvs) ← readAcVars b.length b none [] []
     match acn with
     | some acn => pure (.associationAC ⟨pv, calling, called, acn, pcs, uvs⟩)
     | none => .err .missingAcn
-  else if t = 0x03 then
+  else if t = Gen.rPdu_AssociationRJ then
     if body.length < 1 + 1 + 2 then .err .invalidFieldLength else do
       let (_, b) ← u8P body
       let (r, b) ← u8P b
@@ -635,14 +668,14 @@ def readBody (t : Nat) (body : Bytes) : Res Pdu :=
         match RjSource.ofCodes s q with
         | none => .err .invalidRj
         | some src => pure (.associationRJ res src)
-  else if t = 0x04 then do
+  else if t = Gen.rPdu_PData then do
     let vs ← readPdvs body.length body []
     pure (.pData vs)
-  else if t = 0x05 then
+  else if t = Gen.rPdu_ReleaseRQ then
     if body.length < 4 then .err .invalidFieldLength else pure .releaseRQ
-  else if t = 0x06 then
+  else if t = Gen.rPdu_ReleaseRP then
     if body.length < 4 then .err .invalidFieldLength else pure .releaseRP
-  else if t = 0x07 then
+  else if t = Gen.rPdu_AbortRQ then
     if body.length < 2 + 2 then .err .invalidFieldLength else do
       let (_, b) ← takeP 2 body
       let (s, b) ← u8P b
@@ -698,7 +731,14 @@ def normPdu : Pdu → Pdu
 def isBytesB (bs : Bytes) : Bool := bs.all (· < 256)
 
 def knownUserVarCode (t : Nat) : Bool :=
-  t = 0x51 || t = 0x52 || t = 0x54 || t = 0x55 || t = 0x56 || t = 0x58
+  t = Gen.rUser_MaxLength || t = Gen.rUser_ImplementationClassUID ||
+    t = Gen.rUser_ScuScpRoleSelectionSubItem || t = Gen.rUser_ImplementationVersionName ||
+    t = Gen.rUser_SopClassExtendedNegotiationSubItem || t = Gen.rUser_UserIdentityItem
+
+/-- the PDU types the reader knows -/
+def knownPduType (t : Nat) : Bool :=
+  t = Gen.rPdu_AssociationRQ || t = Gen.rPdu_AssociationAC || t = Gen.rPdu_AssociationRJ ||
+    t = Gen.rPdu_PData || t = Gen.rPdu_ReleaseRQ || t = Gen.rPdu_ReleaseRP || t = Gen.rPdu_AbortRQ
 
 def wfUserVar : UserVar → Bool
   | .unknown t d => t < 256 && !knownUserVarCode t && isBytesB d
@@ -710,8 +750,8 @@ def wfUserVar : UserVar → Bool
   | .userIdentity u => isBytesB u.primary && isBytesB u.secondary
 
 def wfRjSource : RjSource → Bool
-  | .serviceUser (.reserved x) => x = 4 || x = 5 || x = 6 || x = 8 || x = 9 || x = 10
-  | .presentation (.reserved x) => x = 0 || x = 3 || x = 4 || x = 5 || x = 6 || x = 7
+  | .serviceUser (.reserved x) => Gen.rRj_ServiceUser_Reserved.contains x
+  | .presentation (.reserved x) => Gen.rRj_ServiceProviderPresentation_Reserved.contains x
   | _ => true
 
 def wfPdv (v : Pdv) : Bool := v.pcid < 256 && isBytesB v.data
@@ -720,7 +760,7 @@ def wfAssoc {γ : Type} (wfPc : γ → Bool) (a : Assoc γ) : Bool :=
   a.protocolVersion < 65536 && a.pcs.all wfPc && a.uvs.all wfUserVar
 
 def wfPdu : Pdu → Bool
-  | .unknown t d => t < 256 && !(1 ≤ t && t ≤ 7) && isBytesB d
+  | .unknown t d => t < 256 && !knownPduType t && isBytesB d
   | .associationRQ a => wfAssoc (fun pc : PcProposed => decide (pc.id < 256)) a
   | .associationAC a => wfAssoc (fun pc : PcResult => decide (pc.id < 256)) a
   | .associationRJ _ src => wfRjSource src
